@@ -726,6 +726,155 @@ Section SimBound.
       apply sum_probs_pos; [now apply Hne|now apply Hd].
     - split; intros kl [E|[]]; subst; cbn [snd]; [|discriminate]. intros b [E|[]]; subst; cbn; lra.
   Qed.
+
+  (* ---- per-event / per-outcome truncation bound (any tolerance >= 0) ---- *)
+  Notation path := (path_law apply p1 proj flipx).
+  Notation ctr := (contrib gate state apply p1 proj flipx).
+
+  Lemma mul01 a x : 0 <= a -> 0 <= x <= 1 -> 0 <= a * x <= a.
+  Proof.
+    intros Ha [H0 H1]. split; [now apply Qmult_le_0_compat|].
+    setoid_replace a with (1 * a) at 2 by ring. rewrite (Qmult_comm a x). apply Qmult_le_compat_r; assumption.
+  Qed.
+
+  Lemma path_ev_range phi : (forall k, 0 <= phi k <= 1) -> forall (r : prog) s k, 0 <= ev phi (path r s k) <= 1.
+  Proof.
+    intros Hphi. induction r as [|i r IH]; intros s k.
+    - cbn [path_law]. unfold ev; cbn [fold_right fst snd]. destruct (Hphi k). split; lra.
+    - destruct i as [g qs|q c|q|qs| |]; cbn [path_law]; try apply IH.
+      + rewrite ev_app, !ev_scale. destruct (p1_range s q) as [P0 P1].
+        destruct (mul01 (1 - p1 s q) _ ltac:(lra) (IH (proj s q false) (N.clearbit k (N.of_nat c)))).
+        destruct (mul01 (p1 s q) _ P0 (IH (proj s q true) (N.setbit k (N.of_nat c)))). split; lra.
+      + rewrite ev_app, !ev_scale. destruct (p1_range s q) as [P0 P1].
+        destruct (mul01 (1 - p1 s q) _ ltac:(lra) (IH (proj s q false) k)).
+        destruct (mul01 (p1 s q) _ P0 (IH (flipx (proj s q true) q) k)). split; lra.
+  Qed.
+
+  Lemma split_event phi (r : prog) q kf k (b : branch) X0 X1 :
+    0 <= fst b <= 1 -> 0 <= X0 <= 1 -> 0 <= X1 <= 1 ->
+    ctr phi r (N.lxor k (N.land k kf), (fst b * (1 - p1 (snd b) q), proj (snd b) q false)) == fst b * ((1 - p1 (snd b) q) * X0) ->
+    ctr phi r (N.lor k kf, (fst b * p1 (snd b) q,
+                 if N.eqb kf 0 then flipx (proj (snd b) q true) q else proj (snd b) q true)) == fst b * (p1 (snd b) q * X1) ->
+    fst b * ((1 - p1 (snd b) q) * X0 + p1 (snd b) q * X1) - qn (pruned_here p1 tol q b) * tol
+      <= qsum (ctr phi r) (split q kf k b) <= fst b * ((1 - p1 (snd b) q) * X0 + p1 (snd b) q * X1).
+  Proof.
+    intros Hb HX0 HX1 H0 H1. destruct (p1_range (snd b) q) as [Hp0 Hp1].
+    unfold split_branch, pruned_here. rewrite qsum_app.
+    set (P := p1 (snd b) q) in *. set (pb := fst b) in *.
+    destruct (mul01 (1 - P) X0 ltac:(lra) HX0) as [Y0a Y0b]. destruct (mul01 P X1 Hp0 HX1) as [Y1a Y1b].
+    destruct (mul01 _ pb Y0a Hb) as [A0a A0b]. destruct (mul01 _ pb Y1a Hb) as [A1a A1b].
+    assert (E0 : pb * ((1 - P) * X0) == (1 - P) * X0 * pb) by ring.
+    assert (E1 : pb * (P * X1) == P * X1 * pb) by ring.
+    assert (Es : pb * ((1 - P) * X0 + P * X1) == (1 - P) * X0 * pb + P * X1 * pb) by ring.
+    set (A0 := (1 - P) * X0 * pb) in *. set (A1 := P * X1 * pb) in *.
+    set (Y0 := (1 - P) * X0) in *. set (Y1 := P * X1) in *.
+    rewrite Es.
+    destruct (isclose0 tol (1 - P)) eqn:Z0, (isclose0 tol P) eqn:Z1; cbn [qsum plus]; unfold qn; cbn [Z.of_nat Pos.of_succ_nat Pos.succ]; unfold inject_Z;
+      try (apply isclose0_small in Z0; [|lra]); try (apply isclose0_small in Z1; [|lra]);
+      rewrite ?H0, ?H1, ?E0, ?E1; split; lra.
+  Qed.
+
+  Lemma split_event_measure phi (r : prog) q c kb : (forall k, 0 <= phi k <= 1) -> 0 <= bprob kb <= 1 ->
+    ctr phi (PMeasure q c :: r) kb - qn (pruned_here p1 tol q (snd kb)) * tol
+      <= qsum (ctr phi r) (split q (N.shiftl 1 (N.of_nat c)) (fst kb) (snd kb)) <= ctr phi (PMeasure q c :: r) kb.
+  Proof.
+    intros Hphi Hb. destruct kb as [k b]. cbn [fst snd]. unfold bprob in Hb; cbn [fst snd] in Hb.
+    unfold contrib at 1 4. cbn [fst snd path_law]. rewrite ev_app, !ev_scale.
+    apply split_event; auto; try apply path_ev_range; auto; unfold contrib; cbn [fst snd].
+    - rewrite k0_clearbit. ring.
+    - rewrite shiftl1_nonzero, k1_setbit. ring.
+  Qed.
+
+  Lemma split_event_reset phi (r : prog) q kb : (forall k, 0 <= phi k <= 1) -> 0 <= bprob kb <= 1 ->
+    ctr phi (PReset q :: r) kb - qn (pruned_here p1 tol q (snd kb)) * tol
+      <= qsum (ctr phi r) (split q 0%N (fst kb) (snd kb)) <= ctr phi (PReset q :: r) kb.
+  Proof.
+    intros Hphi Hb. destruct kb as [k b]. cbn [fst snd]. unfold bprob in Hb; cbn [fst snd] in Hb.
+    unfold contrib at 1 4. cbn [fst snd path_law]. rewrite ev_app, !ev_scale.
+    apply split_event; auto; try apply path_ev_range; auto; unfold contrib; cbn [fst snd].
+    - rewrite k0_reset. ring.
+    - rewrite k1_reset. cbn [N.eqb]. ring.
+  Qed.
+
+  Lemma step_event phi (r r' : prog) q kf (d d1 : dict) : NoDup (keys d) -> step q kf d = Some d1 ->
+    (forall kb, In kb (branches d) -> 0 <= bprob kb) -> mass (branches d) <= 1 ->
+    (forall kb, 0 <= bprob kb <= 1 ->
+       ctr phi r' kb - qn (pruned_here p1 tol q (snd kb)) * tol
+         <= qsum (ctr phi r) (split q kf (fst kb) (snd kb)) <= ctr phi r' kb) ->
+    qsum (ctr phi r') (branches d) - qn (pruned_count p1 tol q d) * tol
+      <= qsum (ctr phi r) (branches d1) <= qsum (ctr phi r') (branches d).
+  Proof.
+    intros ND E Hpos Hm Hsplit.
+    destruct (step_ok _ p1 proj flipx tol q kf d ND) as [d1' [E1 [_ [P1 _]]]].
+    rewrite E in E1; inversion E1; subst d1'; clear E1.
+    assert (Hb : forall kb, In kb (branches d) -> 0 <= bprob kb <= 1).
+    { intros kb HI. split; [now apply Hpos|]. apply Qle_trans with (mass (branches d)); [|assumption].
+      apply (qsum_In_le bprob); assumption. }
+    rewrite pending_insert_flat in P1.
+    assert (Hd1 : qsum (ctr phi r) (branches d1) == qsum (fun kb => qsum (ctr phi r) (split q kf (fst kb) (snd kb))) (branches d)).
+    { rewrite (qsum_perm _ _ _ P1), qsum_flat_map. reflexivity. }
+    assert (Hlow : qsum (ctr phi r') (branches d) - qn (pruned_count p1 tol q d) * tol ==
+                   qsum (fun kb => ctr phi r' kb - qn (pruned_here p1 tol q (snd kb)) * tol) (branches d)).
+    { rewrite (qsum_minus (ctr phi r') (fun kb => qn (pruned_here p1 tol q (snd kb)) * tol)).
+      rewrite (qsum_scal tol (fun kb => qn (pruned_here p1 tol q (snd kb)))), pruned_count_sum. reflexivity. }
+    rewrite Hd1, Hlow. split; apply qsum_le; intros kb HI; destruct (Hsplit kb (Hb kb HI)); assumption.
+  Qed.
+
+  Lemma run_event phi : 0 <= tol -> (forall k, 0 <= phi k <= 1) -> forall (p : prog) (d : dict) n d' n', NoDup (keys d) ->
+    (forall kb, In kb (branches d) -> 0 <= bprob kb) -> mass (branches d) <= 1 ->
+    run p d n = Ok (d', n') ->
+    qsum (ctr phi p) (branches d) + qn n * tol <= ev phi (finalize d') + qn n' * tol /\
+    ev phi (finalize d') <= qsum (ctr phi p) (branches d).
+  Proof.
+    intros Ht Hphi. induction p as [|i r IH]; intros d n d' n' ND Hpos Hm E.
+    - inversion E; subst. rewrite (finalize_ev _ _ apply p1 proj flipx). split; apply Qle_refl.
+    - destruct i as [g qs|q c|q|qs| |]; cbn [Sim.run] in E; try discriminate.
+      + apply IH in E; [| now rewrite keys_evolve | | now rewrite mass_evolve].
+        * rewrite branches_evolve, qsum_map in E. exact E.
+        * intros kb HI. rewrite branches_evolve in HI. apply in_map_iff in HI as [kb0 [E0 HI]]. subst kb.
+          cbn [bprob fst snd]. now apply Hpos.
+      + destruct (step q (N.shiftl 1 (N.of_nat c)) d) as [d1|] eqn:E1; [|discriminate].
+        destruct (step_ok _ p1 proj flipx tol q (N.shiftl 1 (N.of_nat c)) d ND) as [d1' [E1' [ND1 _]]]. rewrite E1 in E1'; inversion E1'; subst d1'.
+        destruct (step_mass q (N.shiftl 1 (N.of_nat c)) d d1 ND E1 Hpos Hm) as [[L U] Hpos1].
+        destruct (step_event phi r (PMeasure q c :: r) q _ d d1 ND E1 Hpos Hm) as [L2 U2].
+        { intros kb Hb. now apply split_event_measure. }
+        apply IH in E; auto; [|lra]. rewrite qn_add in E. destruct E as [E3 E4]. split; lra.
+      + destruct (step q 0%N d) as [d1|] eqn:E1; [|discriminate].
+        destruct (step_ok _ p1 proj flipx tol q 0%N d ND) as [d1' [E1' [ND1 _]]]. rewrite E1 in E1'; inversion E1'; subst d1'.
+        destruct (step_mass q 0%N d d1 ND E1 Hpos Hm) as [[L U] Hpos1].
+        destruct (step_event phi r (PReset q :: r) q _ d d1 ND E1 Hpos Hm) as [L2 U2].
+        { intros kb Hb. now apply split_event_reset. }
+        apply IH in E; auto; [|lra]. rewrite qn_add in E. destruct E as [E3 E4]. split; lra.
+      + now apply IH in E.
+  Qed.
+
+  Theorem simulate_event_bound : 0 <= tol -> forall phi, (forall k, 0 <= phi k <= 1) -> forall s0 (p : prog) out n,
+    simulate apply p1 proj flipx tol s0 p = Ok out -> pruned_total apply p1 proj flipx tol s0 p = Ok n ->
+    ev phi (path p s0 0%N) - qn n * tol <= ev phi out <= ev phi (path p s0 0%N).
+  Proof.
+    intros Ht phi Hphi s0 p out n E En. unfold simulate, pruned_total in *.
+    destruct (run p (init_dict s0) 0%nat) as [[d' n']| |] eqn:R; try discriminate.
+    cbn [res_map fst snd] in *. inversion E; inversion En; subst. clear E En.
+    assert (M0 : mass (branches (init_dict s0)) == 1) by (unfold mass, init_dict; cbn; ring).
+    apply (run_event phi Ht Hphi) in R.
+    - assert (C0 : qsum (ctr phi p) (branches (init_dict s0)) == ev phi (path p s0 0%N)).
+      { unfold init_dict, contrib; cbn [branches flat_map map app qsum fst snd]. ring. }
+      destruct R as [L U]. rewrite C0 in *. unfold qn at 1 in L. cbn [Z.of_nat] in L. unfold inject_Z in L. split; lra.
+    - apply init_keys.
+    - intros kb [E|[]]; subst; cbn; lra.
+    - rewrite M0. apply Qle_refl.
+  Qed.
+
+  Lemma indic_range k k' : 0 <= indic k k' <= 1.
+  Proof. unfold indic. destruct (N.eqb k' k); split; lra. Qed.
+
+  Theorem simulate_outcome_bound : 0 <= tol -> forall s0 (p : prog) out n,
+    simulate apply p1 proj flipx tol s0 p = Ok out -> pruned_total apply p1 proj flipx tol s0 p = Ok n ->
+    forall k, lookup (path p s0 0%N) k - qn n * tol <= lookup out k <= lookup (path p s0 0%N) k.
+  Proof.
+    intros Ht s0 p out n E En k. rewrite !lookup_ev.
+    apply (simulate_event_bound Ht (indic k) (indic_range k) s0 p out n E En).
+  Qed.
 End SimBound.
 
 (* ------------------------------------------------------------------------------------------ *)
